@@ -389,8 +389,13 @@ class _PartialEvalInstance(DefaultVisitor):
                 return
 
     def _visit_while(self, stmt: WhileStmt, ctx: Context | None):
-        self._visit_expr(stmt.cond, ctx)
-        self._loop_fixpoint(stmt, lambda: self._visit_block(stmt.body, ctx))
+        # The condition reads the loop-head phis: visit it inside the
+        # fixpoint (after the phis are seeded / updated), not once before it
+        # with whatever an enclosing loop's previous pass left in `by_def`.
+        def run():
+            self._visit_expr(stmt.cond, ctx)
+            self._visit_block(stmt.body, ctx)
+        self._loop_fixpoint(stmt, run)
 
     def _visit_for(self, stmt: ForStmt, ctx: Context | None):
         self._visit_expr(stmt.iterable, ctx)
